@@ -291,6 +291,19 @@ func (h *Host) RemoveStreamHandler(pid protocol.ID) {
 	}
 }
 
+// Protocols lists the protocol ids (prefixes) this host has stream handlers for - what a remote
+// peer learns through libp2p's identify protocol.
+func (h *Host) Protocols() []protocol.ID {
+	h.mu.RLock()
+	defer h.mu.RUnlock()
+	out := make([]protocol.ID, 0, len(h.handlers))
+	for _, e := range h.handlers {
+		out = append(out, e.prefix)
+	}
+
+	return out
+}
+
 func (h *Host) handlerFor(pid protocol.ID) network.StreamHandler {
 	if h.closed.Load() {
 		return nil
@@ -375,16 +388,21 @@ type outStream struct {
 	deadline time.Time
 }
 
-func (s *outStream) Protocol() protocol.ID              { return s.proto }
-func (s *outStream) SetProtocol(id protocol.ID) error   { s.proto = id; return nil }
-func (s *outStream) Conn() network.Conn                 { return conn{local: s.from, remote: s.to} }
-func (s *outStream) ID() string                         { return "fakenet-out" }
-func (s *outStream) SetDeadline(t time.Time) error      { s.mu.Lock(); s.deadline = t; s.mu.Unlock(); return nil }
-func (s *outStream) SetReadDeadline(t time.Time) error  { return s.SetDeadline(t) }
-func (s *outStream) SetWriteDeadline(time.Time) error   { return nil }
-func (s *outStream) Reset() error                       { return s.Close() }
+func (s *outStream) Protocol() protocol.ID            { return s.proto }
+func (s *outStream) SetProtocol(id protocol.ID) error { s.proto = id; return nil }
+func (s *outStream) Conn() network.Conn               { return conn{local: s.from, remote: s.to} }
+func (s *outStream) ID() string                       { return "fakenet-out" }
+func (s *outStream) SetDeadline(t time.Time) error {
+	s.mu.Lock()
+	s.deadline = t
+	s.mu.Unlock()
+	return nil
+}
+func (s *outStream) SetReadDeadline(t time.Time) error            { return s.SetDeadline(t) }
+func (s *outStream) SetWriteDeadline(time.Time) error             { return nil }
+func (s *outStream) Reset() error                                 { return s.Close() }
 func (s *outStream) ResetWithError(network.StreamErrorCode) error { return s.Close() }
-func (s *outStream) CloseRead() error                   { return nil }
+func (s *outStream) CloseRead() error                             { return nil }
 
 func (s *outStream) Write(p []byte) (int, error) {
 	s.mu.Lock()
@@ -463,18 +481,18 @@ type inStream struct {
 	done bool
 }
 
-func (s *inStream) Protocol() protocol.ID             { return s.env.Proto }
-func (s *inStream) SetProtocol(protocol.ID) error     { return nil }
-func (s *inStream) Conn() network.Conn                { return conn{local: s.local, remote: s.env.From} }
-func (s *inStream) ID() string                        { return "fakenet-in" }
-func (s *inStream) SetDeadline(time.Time) error       { return nil }
-func (s *inStream) SetReadDeadline(time.Time) error   { return nil }
-func (s *inStream) SetWriteDeadline(time.Time) error  { return nil }
-func (s *inStream) Reset() error                      { return s.Close() }
+func (s *inStream) Protocol() protocol.ID                        { return s.env.Proto }
+func (s *inStream) SetProtocol(protocol.ID) error                { return nil }
+func (s *inStream) Conn() network.Conn                           { return conn{local: s.local, remote: s.env.From} }
+func (s *inStream) ID() string                                   { return "fakenet-in" }
+func (s *inStream) SetDeadline(time.Time) error                  { return nil }
+func (s *inStream) SetReadDeadline(time.Time) error              { return nil }
+func (s *inStream) SetWriteDeadline(time.Time) error             { return nil }
+func (s *inStream) Reset() error                                 { return s.Close() }
 func (s *inStream) ResetWithError(network.StreamErrorCode) error { return s.Close() }
-func (s *inStream) CloseRead() error                  { return nil }
-func (s *inStream) CloseWrite() error                 { return s.Close() }
-func (s *inStream) Read(p []byte) (int, error)        { return s.rd.Read(p) }
+func (s *inStream) CloseRead() error                             { return nil }
+func (s *inStream) CloseWrite() error                            { return s.Close() }
+func (s *inStream) Read(p []byte) (int, error)                   { return s.rd.Read(p) }
 
 func (s *inStream) Write(p []byte) (int, error) {
 	s.mu.Lock()
